@@ -304,6 +304,10 @@ example : exTree.queryFuel = 14 ∧ batchQueryFuel exδ id 2 100 13 exTree = non
   rw [exTree_query.2.2.2] at h1
   rw [h2 fuel hf, ← h1]
 
+/-- `cover_query_fuel_mono`: the answer obtained with fuel 14 is the answer with fuel 1000 -/
+example : batchQueryFuel exδ id 2 100 1000 exTree = some [[3, 3, 2], [2, 1, 2], [1, 1, 2], [0, 0, 1]] :=
+  cover_query_fuel_mono exδ 2 100 (fuel := 14) (by decide) (by decide)
+
 /-- the hypothesis `leavesAt` cannot be dropped: on a childless node of another scale the real query would read
     `children[0]` of a leaf, and the model reports the error whatever the fuel -/
 example : ∀ fuel, batchQueryFuel exδ id 2 100 fuel (.mk 0 0 0 0 [] : CNode Int) = none := by
